@@ -27,11 +27,16 @@ PROP = Prop(
     assumptions=["no int32 overflow in the size arithmetic: every length below 2^31 (limits are at most 2^30 by config validation; a single record "
                  "of 2 GiB or more is outside the model)",
                  "no concurrent failAllRecords / bumpRepeatedLoadErr while a request is serialised (the null-records arm of AppendTo is not modelled)",
-                 "the sink's known produce version is either unknown (-1) or the version the request is written at"],
+                 "the sink's known produce version is either unknown (-1) or the version the request is written at; generated ops are normalised to "
+                 "this. Where it fails in the real client (KIP-890-part-2 flag changing after the first response; a v13 sink meeting a topic "
+                 "without id; a broker dropping below v3) the size accounting is for the wrong layout and both limits can be exceeded: listed "
+                 "findings request-over-limit-/batch-over-max-when-written-version-differs-from-sink-version, replayed by corpus/C18/003 on every run"],
     partial="decode(encode) round trip proved for Produce v3-v13 without compressor; with a compressor and for message sets (v0-v2) it is checked "
-            "only differentially by the same reference decoder. Request bound proved for every version 0-13 when the sink knows the version; while "
-            "the version is unknown it is proved for flexible written versions only for batches below 2 MiB, topic names below 32 KiB and fewer than "
-            "16383 topics (false beyond: real code writes accounted+1 for 2 topics x 127 partitions x 2 MiB batches). Batch bound proved for record "
+            "only differentially by the same reference decoder. Request bound proved for every version 0-13 when the sink knows the version it "
+            "writes at; while the version is unknown (first request) it is proved for every written version, for flexible ones under: every topic "
+            "fits the estimate max(2+lt+4, 21) (v13: < 2^28-1 partitions; v9-v12: compact lengths of name and partition count <= 5 bytes, e.g. "
+            "name <= 126 bytes or < 2^21-1 partitions) and (< 16383 topics or a spare byte per topic). All theorems assume sink version = -1 or "
+            "the written version; the two listed findings are exactly the violations outside that assumption. Batch bound proved for record "
             "batches and for message sets buffered at the written (or an unknown) version.",
     run_timeout={"quick": 900, "thorough": 3000},
 )
@@ -47,9 +52,9 @@ MANIFEST = {
             "serialisation path on every produce version, and every written request is decoded by an independent strict reference decoder (Spec) that "
             "checks records, order, lengths, CRC span, deltas, attributes, producer id/epoch/sequence and both size limits.",
     "note": "Trusted: Lean kernel; the hand-written model (validated differentially, byte for byte); the reference decoder; CRCs and codecs as parameters. "
-            "Not proved in Lean: the decode(encode) round trip with a compressor and for message sets (differential only). Both defects the check found (flexible requests over BrokerMaxWriteBytes, "
-            "message sets over ProducerBatchMaxBytes) are repaired in /repo (e8757ce, c322dee) and kept as regression cases.",
+            "Not proved in Lean: the decode(encode) round trip with a compressor and for message sets (differential only). The defects the check found (flexible requests over BrokerMaxWriteBytes, "
+            "message sets over ProducerBatchMaxBytes, first request with 127+ large batches of a short-named topic) are repaired in /repo (e8757ce, "
+            "c322dee, d9ff59f) and kept as regression cases; the violations that need the written version to differ from the sink's version are listed findings.",
     "technique": "Lean 4 proof (accounting invariants by induction over buffering and request building, exact length lemmas) with differential "
                  "correspondence and an executable reference-decoder Spec evaluated on the implementation's bytes",
 }
-PENDING = "not claimed at the moment (the technique applies): the check exists (16 theorems, differential tie) and found two defects that were repaired in /repo (e8757ce, c322dee); the Lean model is being re-transcribed to the repaired accounting and the property is claimed again when the check passes on the repaired tree"
